@@ -38,7 +38,9 @@ def spec_step(row, st0, instr, iset, oplen, mem=None, fix=None):
     final['R.PC'] = ite(branched, exe.st['R.PC'], (st0['R.PC'] + oplen // 8) & M32)
     it0 = ST.cpsr_field(st0['cpsr'], 'it')
     c1 = final['cpsr']
-    final['cpsr'] = ite(bits(it0, 3, 0) != 0, ST.cpsr_with(c1, it=PSR.it_advance(ST.cpsr_field(c1, 'it'))), c1)
+    # ITSTATE advances after an instruction of an IT block - except where the instruction was an exception return: the IT bits
+    # it loaded are those of the interrupted code and stand for the next instruction as they are
+    final['cpsr'] = ite(land(bits(it0, 3, 0) != 0, lnot(land(passed, exe.eret))), ST.cpsr_with(c1, it=PSR.it_advance(ST.cpsr_field(c1, 'it'))), c1)
     if exe.unkmask:
         final['__unkmask__'] = {k: ite(passed, m, 0) for k, m in exe.unkmask.items()}
     return final, unpred, undef
